@@ -128,6 +128,18 @@ func VerifC14_Batches() {
 	var curGlobal, curTCP map[string]string   // what the next batch must report as current
 	steps := nd.Param("K", 3)
 	swaps := 0
+	// batches already handed to the reconciler, with a copy of their descriptions: whatever
+	// happens later must not touch them (the reconciler reads them outside the lock)
+	var handed []*types.ChangedObjects
+	var handedObjects [][]string
+	untouched := func() {
+		for i, ch := range handed {
+			nd.Assert(len(ch.Objects) == len(handedObjects[i]), "handed-batch-is-not-touched-afterwards")
+			for k := range ch.Objects {
+				nd.Assert(ch.Objects[k] == handedObjects[i][k], "handed-batch-is-not-touched-afterwards")
+			}
+		}
+	}
 	for s := 0; s < steps; s++ {
 		var op int
 		if nd.Param("CHAIN", 0) == 1 {
@@ -182,6 +194,9 @@ func VerifC14_Batches() {
 			}
 			lastGlobal, lastTCP = nil, nil
 			exp = zzNewExpect()
+			untouched()
+			handed = append(handed, ch)
+			handedObjects = append(handedObjects, append([]string(nil), ch.Objects...))
 			continue
 		}
 		evt := nd.Choice("event", 3) // create, update, delete
@@ -257,6 +272,7 @@ func VerifC14_Batches() {
 		exp.links[res] = zzAddUnique(exp.links[res], full)
 		exp.objects = zzAddUnique(exp.objects, evname+"/"+string(res)+":"+full)
 	}
+	untouched()
 	if swaps > 0 {
 		nd.Reach("swapped")
 	}
